@@ -1,0 +1,28 @@
+//go:build verif
+
+// Contracts for the deductive verifier in /verif (comment-only; compiled only with -tags verif).
+package crypto
+
+//@ func PKCS5UnPadding
+//@   props C15
+//@   ensures !isNil(result) ==> sameArray(result, originData) && len(result) < len(originData) && cap(result) == cap(originData)
+//@   ensures len(originData) == 0 ==> isNil(result)
+//@   invariant @loop 0: index - 1 <= i && i <= length - 1 && length == len(originData) && 0 <= index
+//@   nopanic
+
+//@ func PKCS5Padding
+//@   props C15
+//@   requires blockSize == 16
+//@   ensures len(result) > len(cipherText) && len(result) <= len(cipherText) + 16 && len(result) % 16 == 0
+//@   nopanic
+
+//@ func AesDecrypt
+//@   props C15
+//@   ensures result1 == nil ==> !isNil(result0) && len(result0) < len(encResult) && cap(result0) >= len(encResult) && len(encResult) >= 16
+//@   ensures result1 != nil ==> isNil(result0)
+//@   nopanic
+
+//@ func AesEncrypt
+//@   props C15
+//@   ensures result1 == nil ==> len(result0) > len(originData) && len(result0) % 16 == 0 && len(result0) <= len(originData) + 16
+//@   nopanic
